@@ -168,33 +168,48 @@ Fixpoint replay (reset : bool) (s : st) (tr : list obs) : N :=
   end.
 
 (* Property oracle evaluated on the *implementation's* observations alone (no model state):
-   clients that were returned an id and have not released it themselves are the holders. *)
-Fixpoint oracle (hs : list (client * Z)) (lastq : list Z) (tr : list obs) : N :=
+   clients that were returned an id and have not released it themselves are the holders;
+   [arr] is the arrival order of the waiting starts that have not returned yet. *)
+Fixpoint remove_client (c : client) (l : list client) : list client :=
+  match l with
+  | [] => []
+  | x :: t => if Nat.eqb c x then t else x :: remove_client c t
+  end.
+
+Fixpoint oracle (hs : list (client * Z)) (arr : list client) (lastq : list Z) (tr : list obs) : N :=
   match tr with
   | [] => 0%N
   | o :: t =>
       match o with
-      | OStartW c q => oracle hs q t
+      | OStartW c q => oracle hs (arr ++ [c]) q t
       | OReturn c id =>
           let hs' := hs ++ [(c, id)] in
-          if Nat.ltb 1 (length hs') then 2%N else oracle hs' lastq t
+          if Nat.ltb 1 (length hs') then 2%N
+          else match arr with
+               | a :: _ => if Nat.eqb a c then oracle hs' (remove_client c arr) lastq t else 4%N
+               | [] => oracle hs' arr lastq t
+               end
       | OStartN c id q =>
-          if Z.eqb id 0 then oracle hs q t
+          if Z.eqb id 0 then oracle hs arr q t
           else let hs' := hs ++ [(c, id)] in
-               if Nat.ltb 1 (length hs') then 2%N else oracle hs' q t
+               if Nat.ltb 1 (length hs') then 2%N
+               else match arr with
+                    | _ :: _ => 4%N        (* a non-waiting start overtook queued waiters *)
+                    | [] => oracle hs' arr q t
+                    end
       | ORelease c id q =>
-          if mem_pair (c, id) hs then oracle (remove_first (c, id) hs) q t
+          if mem_pair (c, id) hs then oracle (remove_first (c, id) hs) arr q t
           else (* non-holder release: the head must not change *)
             match lastq, q with
-            | h :: _, h' :: _ => if Z.eqb h h' then oracle hs q t else 3%N
-            | [], [] => oracle hs q t
+            | h :: _, h' :: _ => if Z.eqb h h' then oracle hs arr q t else 3%N
+            | [], [] => oracle hs arr q t
             | _, _ => 3%N
             end
       end
   end.
 
 Definition check_case (tr : list obs) : N :=
-  match oracle [] [] tr with
+  match oracle [] [] [] tr with
   | 0%N => replay false init tr
   | v => v
   end.
